@@ -329,8 +329,9 @@ def reenableFail (c : Cfg) (s : SpecSt) (o : Obs) : Option String :=
       if touchesKey s.prev k o.ev then none else
       match sentOfView c s.prev k, sentOfView c o.view k with
       | some before, some after =>
+        -- (any failed transmission counts, also a direct delivery: `forward` reports every failed `Send`)
         if before.all (fun e => after.contains e ||
-            ch.any (fun pbk => pbk.1.eid == e && pbk.2.1.key == k && !pbk.2.2))
+            o.outs.any (fun | .sent p b ok => p.eid == e && b.key == k && !ok | _ => false))
         then none else some "c13-sent-list-lost-entry"
       | _, _ => none
 
@@ -356,6 +357,16 @@ def c05Fail (c : Cfg) (s : SpecSt) (o : Obs) : Option String :=
   (retainedFail c s o).orElse fun _ =>
   (directFail c s o).orElse fun _ =>
   (floodFail c s o).orElse fun _ => restartFail s o
+
+/-- C05 with the clause that makes "a peer that does not have it yet" observable: a peer whose transmission
+FAILED does not have the bundle — under epidemic routing it must be out of the bundle's sent list after the
+event (else it is never offered the bundle again), also when another transmission of the same attempt
+succeeded (`FailureReenablesExactly` of C13, judged on C05's histories too). -/
+def c05FailX (c : Cfg) (s : SpecSt) (o : Obs) : Option String :=
+  (c05Fail c s o).orElse fun _ =>
+    if c.algo == .epidemic then
+      (reenableFail c s o).map fun cls => "flood-failed-peer-not-offered-again/" ++ cls
+    else none
 
 def c13Fail (c : Cfg) (s : SpecSt) (o : Obs) : Option String :=
   (returnFail c o).orElse fun _ =>
